@@ -48,6 +48,7 @@ _mutable_spec: tuple[tuple[type[t.Any], frozenset[str]], ...] = (
                 "clear",
                 "difference_update",
                 "discard",
+                "intersection_update",
                 "pop",
                 "remove",
                 "symmetric_difference_update",
@@ -169,8 +170,8 @@ def modifies_known_mutable(obj: t.Any, attr: str) -> bool:
     False
     """
     for typespec, unsafe in _mutable_spec:
-        if isinstance(obj, typespec):
-            return attr in unsafe
+        if isinstance(obj, typespec) and attr in unsafe:
+            return True
     return False
 
 
